@@ -267,6 +267,8 @@ type Place struct {
 	comp string
 	ref  string
 	idx  string
+	off  string // elem places derived from a slice: slice offset and relative index (idx == off+rel)
+	rel  string
 	typ  types.Type // type of the base location (before sub)
 	sub  []subAcc
 }
@@ -296,11 +298,28 @@ func (e *Enc) loadBase(st *State, p *Place) string {
 	case "field", "cell":
 		return fmt.Sprintf("(select %s %s)", h, p.ref)
 	case "elem":
+		if p.rel != "" {
+			return fmt.Sprintf("(%s (select %s %s) %s %s)", e.atFn(p.typ), h, p.ref, p.off, p.rel)
+		}
 		return fmt.Sprintf("(select (select %s %s) %s)", h, p.ref, p.idx)
 	case "global":
 		return h
 	}
 	panic("loadBase")
+}
+
+// atFn: at_K(row, off, i) == row[off+i]; reads through slices use it so that quantifier patterns over
+// slice elements contain no arithmetic.
+func (e *Enc) atFn(elem types.Type) string {
+	es := e.sortOf(elem)
+	name := "at_" + sortKey(es)
+	if !e.ufSeen[name] {
+		e.ufSeen[name] = true
+		is := e.idxSort()
+		e.ufDecls = append(e.ufDecls, fmt.Sprintf("(declare-fun %s ((Array %s %s) %s %s) %s)\n(assert (forall ((r (Array %s %s)) (o %s) (i %s)) (! (= (%s r o i) (select r %s)) :pattern ((%s r o i)))))",
+			name, is, es, is, is, es, is, es, is, is, name, e.idxAdd("o", "i"), name))
+	}
+	return name
 }
 
 func (e *Enc) storeBase(st *State, p *Place, v string) {
